@@ -136,6 +136,13 @@ var exportSels = []selection{
 	{Include: []string{"*.dat"}, Exclude: []string{"a/b/**"}},
 }
 
+// subsets exported between the import and the --fixup of mode fixup-after-export
+var fixupExportSels = []selection{
+	{Include: []string{"a/*.dat"}},
+	{Include: []string{"a/b/*.dat", "c d/*.dat"}},
+	{Include: []string{"*.dat"}, Exclude: []string{"a/*.dat"}},
+}
+
 var aboves = []struct {
 	arg string
 	n   int
@@ -173,6 +180,15 @@ func plan(run *evid.Run, idx int) *caseSpec {
 		s.Mode = "import-above"
 	case 3:
 		s.Mode, s.Gen.Fixup = "import-fixup", "plain"
+		switch rot % 3 {
+		case 0: // import *.dat -> export a subset -> commit raw files -> import --fixup
+			s.Mode, s.Gen.Fixup, s.RefSel, wantExotic = "fixup-after-export", "", "everything", false
+			s.Trigger = "fixup-filter-override"
+			s.Sel = fixupExportSels[(rot/3)%len(fixupExportSels)]
+			s.Gen.NoEvilMerge, s.Gen.NoNestedBinAttrs = true, true
+		case 1:
+			s.Gen.FixupOverrides, s.Trigger, wantExotic = true, "fixup-filter-override", false
+		}
 	case 4:
 		s.Mode, s.Gen.Fixup, s.RefSel = "import-no-rewrite", "plain", "current-branch"
 		s.NoMsg = rot%4 == 3
@@ -353,6 +369,36 @@ func (c *caseCtx) refArgs(o *op, headBranch string) []string {
 	panic("unknown refsel " + c.spec.RefSel)
 }
 
+// commitRaw adds files to the checked-out branch WITHOUT the clean filter (the situation --fixup repairs).
+func (c *caseCtx) commitRaw(dir string, files map[string][]byte) {
+	idx := filepath.Join(c.env.Root, "tmp", "raw.index")
+	e := []string{"GIT_INDEX_FILE=" + idx}
+	must := func(res sbx.Result) string {
+		if !res.OK() {
+			panic("commitRaw: " + res.String())
+		}
+		return strings.TrimSpace(string(res.Stdout))
+	}
+	must(c.env.Run(sbx.RunOpt{Dir: dir, Env: e}, "git", "read-tree", "HEAD"))
+	var names []string
+	for p := range files {
+		names = append(names, p)
+	}
+	sort.Strings(names)
+	for _, p := range names {
+		sha := must(c.env.Run(sbx.RunOpt{Dir: dir, Stdin: strings.NewReader(string(files[p]))}, "git", "hash-object", "-w", "--stdin"))
+		must(c.env.Run(sbx.RunOpt{Dir: dir, Env: e}, "git", "update-index", "--add", "--cacheinfo", "100644,"+sha+","+p))
+	}
+	tree := must(c.env.Run(sbx.RunOpt{Dir: dir, Env: e}, "git", "write-tree"))
+	parent := must(c.env.Git(dir, "rev-parse", "HEAD"))
+	commit := must(c.env.Run(sbx.RunOpt{Dir: dir, Stdin: strings.NewReader("files committed without the clean filter\n")}, "git", "commit-tree", "-p", parent, tree))
+	must(c.env.Git(dir, "update-ref", "HEAD", commit))
+	must(c.env.Git(dir, "reset", "-q", "--hard"))
+	os.Remove(idx)
+	c.cmds = append(c.cmds, "(commit raw files "+strings.Join(names, ", ")+" on HEAD)")
+	c.run.Count("raw_commits_added_between_commands", 1)
+}
+
 func loadRefs(env *sbx.Env, dir string) map[string]string {
 	out := map[string]string{}
 	for _, l := range strings.Split(env.MustPlainGit(dir, "for-each-ref", "--format=%(refname) %(objectname)"), "\n") {
@@ -458,6 +504,25 @@ func runCase(run *evid.Run, idx int) *caseCtx {
 		args = append(args, o.Paths...)
 		if c.migrate(g.Dir, args...) {
 			c.judgeOp(oldV, loadView(env, g.Dir), o)
+		}
+	case "fixup-after-export":
+		// The two preparatory commands are judged by other modes; here only the final --fixup is.
+		if !c.migrate(g.Dir, "import", "--yes", "--everything", "--include=*.dat") {
+			return c
+		}
+		if !c.migrate(g.Dir, append([]string{"export", "--yes", "--everything"}, selArgs(spec.Sel)...)...) {
+			return c
+		}
+		c.commitRaw(g.Dir, map[string][]byte{
+			"raw-new.dat":     g.bytes(1500+spec.r.Intn(2000), false),
+			"a/raw-new.dat":   g.bytes(1500+spec.r.Intn(2000), false),
+			"a/b/raw-new.dat": g.bytes(300+spec.r.Intn(2000), false),
+			"c d/raw new.dat": g.bytes(300+spec.r.Intn(2000), false),
+		})
+		mid := c.copyRepo(g.Dir, "mid")
+		midV := loadView(env, mid)
+		if c.migrate(g.Dir, "import", "--yes", "--fixup", "--everything") {
+			c.judgeOp(midV, loadView(env, g.Dir), op{Kind: "import", Fixup: true, Everything: true})
 		}
 	case "roundtrip":
 		o1 := op{Kind: "import", Sel: spec.Sel, Everything: true}
